@@ -41,7 +41,9 @@ the stated hypothesis H; **judged only** = no theorem, the Lean judge runs on ev
   schedulers (`progressC_iff`, added in this pass — before, the fairness hypothesis could have been
   suspected of being unsatisfiable with crashes).
 * The sources are constant during a run (`reach_src`): "current sources" = the sources at the check;
-  a source rewritten *while* loaders run is outside the statement (boundary convention).
+  a source rewritten *while* loaders run is outside the statement (boundary convention) of THIS model;
+  round 11: `SrcUpdate.lean` / `SrcUpdateProps.lean` (`Upd.safety_with_source_updates`) cover a rewrite that
+  completes before a loader's (re-)check.
 * "bounded time" is a bound on steps, not seconds.
 * `orig` clauses are kept as refutations only; `liveness_ok` for `orig` stays OPEN (moot since the fix).
 
